@@ -148,12 +148,41 @@ class Summary:
                     # the last accept of a path that raises/returns before testing it cannot matter
                     raise Undecided(f'{qn}: the result of {show(t)} is not tested directly on path `{sp.describe()[:120]}`')
                 if truth[t[1]]:
-                    toks.append((t[1], self._tokarg(t)))
+                    toks.append((t[1], self._narrow(t, self._tokarg(t))))
             elif t[2] in ('self.expect', 'self.block_expect'):
                 toks.append((t[1], self._tokarg(t)))
         self.tok_seq = toks
         self.tokens = tuple(x for _, x in toks)
         self.repo = repo
+
+    def _narrow(self, call: T.Any, tok: T.Any) -> T.Any:
+        """accept_any(TABLE) returns the token id: comparisons of that result with constants on the path narrow the table to the ids still possible."""
+        if call[2] != 'self.accept_any' or not (call[4] and call[4][0][0] == 'name'):
+            return tok
+        try:
+            keys = set(fold_expr(self.ctx.repo, self.mod, ast.Name(id=call[4][0][1], ctx=ast.Load())))
+        except (Undecided, TypeError):
+            return tok
+        narrowed = False
+        for t, v in self.sp.conds():
+            if isinstance(t, tuple) and t[0] == 'op' and t[1] in ('Eq', 'NotEq', 'In', 'NotIn') and len(t[2]) == 2 and call in t[2][:1]:
+                other = t[2][1]
+                if t[1] in ('Eq', 'NotEq') and other[0] == 'const':
+                    members = {other[1]}
+                elif t[1] in ('In', 'NotIn') and other[0] in ('tuple', 'list', 'set') and all(x[0] == 'const' for x in other[1]):
+                    members = {x[1] for x in other[1]}
+                else:
+                    raise Undecided(f'{self.qn}: the accepted token is compared with {show(other)}')
+                keep = (t[1] in ('Eq', 'In')) == v
+                keys = keys & members if keep else keys - members
+                narrowed = True
+        if not narrowed:
+            return tok
+        if len(keys) == 1:
+            return next(iter(keys))
+        if not keys:
+            raise Undecided(f'{self.qn}: an infeasible combination of token comparisons')
+        return ('anyof', tuple(sorted(keys)))
 
     def _const(self, a: T.Any) -> T.Any:
         """A free name that folds to a str/bool/None constant (a literal hoisted into a module constant) is that literal."""
@@ -377,6 +406,9 @@ def check_level(ctx: RuleCtx, mod: Module, meth: str) -> None:
             continue        # a deeper unrolling of the same loop
         else:
             s = next(iter(shapes.values()))
+            unknown = [t for t in toks if isinstance(t, tuple) and (t[0] == 'anyof' or t[1] not in ROLE_KEYS)]
+            if unknown:
+                raise Undecided(f'{qn}: tokens are accepted through the table {unknown[0][1]}, whose role this rule cannot relate to the reference grammar')
             ctx.violation(mod, qn, f'{meth}: tokens {fmt_tokens(toks)}',
                           f'level {meth} accepts the token sequence `{fmt_tokens(toks)}` (yielding {fmt(next(iter(shapes)))}); the reference grammar '
                           f'allows only {sorted(fmt_tokens(k) for k in table)} at this level', s.sp.last_node)
